@@ -34,6 +34,23 @@ pub enum Op {
 #[derive(Clone, Debug, Serialize, Deserialize)]
 pub struct Case {
     pub ops: Vec<Op>,
+    /// per op, how the key is spelled on the wire: 0 as it is, 1 with a CR after its first character, 2 with a LF there
+    /// (nun-db drops line breaks from key names: every command must mean the same key by the same text)
+    #[serde(default)]
+    pub spell: Vec<u8>,
+}
+
+fn wire(spell: u8, k: &str) -> String {
+    let brk = match spell {
+        1 => "\r",
+        2 => "\n",
+        _ => return k.to_string(),
+    };
+    let mut cs = k.chars();
+    match cs.next() {
+        Some(c) => format!("{}{}{}", c, brk, cs.as_str()),
+        None => k.to_string(),
+    }
 }
 
 fn s(x: &[&'static str]) -> impl Strategy<Value = String> {
@@ -90,6 +107,7 @@ pub struct World {
     pub model: Db,
     hist: BTreeMap<String, Hist>,
     snapshot_queued: bool,
+    pub spell: u8,
 }
 
 impl World {
@@ -105,7 +123,7 @@ impl World {
         let mut model = Db::new();
         model.set("$$token", TOKEN);
         model.set("$connections", "2");
-        World { node, user, admin, model, hist: BTreeMap::new(), snapshot_queued: false }
+        World { node, user, admin, model, hist: BTreeMap::new(), snapshot_queued: false, spell: 0 }
     }
     fn hist(&self, k: &str) -> Hist {
         *self.hist.get(k).unwrap_or(&Hist::Never)
@@ -142,12 +160,13 @@ fn mismatch(op: &str, hist: Hist, what: &str, detail: String) -> Option<(String,
 
 /// applies one op to implementation and model; Some(failure) on disagreement
 fn step(w: &mut World, op: &Op, flags: &mut Flags) -> Option<(String, String)> {
+    let sp = w.spell;
     match op {
         Op::Set { k, v, admin } => {
             let secure = k.starts_with("$$");
             let h = w.hist(k);
             let sess = if *admin { &mut w.admin } else { &mut w.user };
-            let (r, msgs) = sess.send(&w.node, &format!("set {} {}", k, v));
+            let (r, msgs) = sess.send(&w.node, &format!("set {} {}", wire(sp, k), v));
             w.node.pump();
             let expect_ok = *admin || !secure;
             if expect_ok {
@@ -174,7 +193,7 @@ fn step(w: &mut World, op: &Op, flags: &mut Flags) -> Option<(String, String)> {
                 Ver::Abs(n) => *n,
                 Ver::Rel(d) => cur.saturating_add(*d).max(0),
             };
-            let (r, _msgs) = w.user.send(&w.node, &format!("set-safe {} {} {}", k, ver, v));
+            let (r, _msgs) = w.user.send(&w.node, &format!("set-safe {} {} {}", wire(sp, k), ver, v));
             w.node.pump();
             // acceptance itself is C02's business: the model follows the reply
             if !is_refusal(&r) {
@@ -191,7 +210,7 @@ fn step(w: &mut World, op: &Op, flags: &mut Flags) -> Option<(String, String)> {
             let secure = k.starts_with("$$");
             let h = w.hist(k);
             let sess = if *admin { &mut w.admin } else { &mut w.user };
-            let (r, msgs) = sess.send(&w.node, &format!("get {}", k));
+            let (r, msgs) = sess.send(&w.node, &format!("get {}", wire(sp, k)));
             if *admin || !secure {
                 let want = w.model.get(k);
                 match &r {
@@ -207,7 +226,7 @@ fn step(w: &mut World, op: &Op, flags: &mut Flags) -> Option<(String, String)> {
         }
         Op::GetSafe { k } => {
             let h = w.hist(k);
-            let (r, msgs) = w.user.send(&w.node, &format!("get-safe {}", k));
+            let (r, msgs) = w.user.send(&w.node, &format!("get-safe {}", wire(sp, k)));
             let want = w.model.get(k);
             match &r {
                 Response::Value { value, version, .. } if *value == want => {
@@ -222,7 +241,7 @@ fn step(w: &mut World, op: &Op, flags: &mut Flags) -> Option<(String, String)> {
             let secure = k.starts_with("$$");
             let h = w.hist(k);
             let sess = if *admin { &mut w.admin } else { &mut w.user };
-            let (r, msgs) = sess.send(&w.node, &format!("remove {}", k));
+            let (r, msgs) = sess.send(&w.node, &format!("remove {}", wire(sp, k)));
             w.node.pump();
             let expect_ok = (*admin || !secure) && k != "$$token";
             if expect_ok {
@@ -245,7 +264,7 @@ fn step(w: &mut World, op: &Op, flags: &mut Flags) -> Option<(String, String)> {
             let h = w.hist(k);
             let before = w.model.clone();
             let expect = w.model.increment(k, *n);
-            let (r, msgs) = w.user.send(&w.node, &format!("increment {} {}", k, n));
+            let (r, msgs) = w.user.send(&w.node, &format!("increment {} {}", wire(sp, k), n));
             w.node.pump();
             match expect {
                 Ok(_) => {
@@ -272,7 +291,7 @@ fn step(w: &mut World, op: &Op, flags: &mut Flags) -> Option<(String, String)> {
         Op::IncBadArg { k, arg } => {
             let h = w.hist(k);
             let before = w.node.dump_db(DB);
-            let (r, _msgs) = w.user.send(&w.node, &format!("increment {} {}", k, arg));
+            let (r, _msgs) = w.user.send(&w.node, &format!("increment {} {}", wire(sp, k), arg));
             w.node.pump();
             flags.refusals += 1;
             if !is_refusal(&r) {
@@ -348,6 +367,7 @@ struct Flags {
     status_dependent: bool,
     refusals: u32,
     ticks: u32,
+    spelled: bool,
 }
 
 /// final sweep: every key of the alphabet + everything either side knows, and the full listing
@@ -379,6 +399,10 @@ pub fn run_case(ctx: &Ctx, case: &Case) -> Outcome {
     let mut flags = Flags::default();
     let mut fail = None;
     for (i, op) in case.ops.iter().enumerate() {
+        w.spell = case.spell.get(i).copied().unwrap_or(0);
+        if w.spell != 0 {
+            flags.spelled = true;
+        }
         if let Some((sig, d)) = step(&mut w, op, &mut flags) {
             fail = Some((sig, format!("step {} ({:?}): {}", i, op, d)));
             break;
@@ -398,6 +422,9 @@ pub fn run_case(ctx: &Ctx, case: &Case) -> Outcome {
     }
     if flags.refusals > 0 {
         out.classes.push("has-refusal");
+    }
+    if flags.spelled {
+        out.classes.push("a-key-spelled-with-a-line-break");
     }
     out.fail = fail;
     out
@@ -434,13 +461,13 @@ fn sequences(alphabet: &[Op], len: usize) -> Vec<Case> {
         }
         out = next;
     }
-    out.into_iter().map(|ops| Case { ops }).collect()
+    out.into_iter().map(|ops| Case { ops, spell: vec![] }).collect()
 }
 
 pub fn run(ctx: &Ctx, rep: &mut Report) {
     crate::interpose::virtual_clock(true);
     let n = ctx.amount(6000, 200_000);
-    explore(ctx, rep, "histories", n, prop::collection::vec(op_strategy(), 1..40).prop_map(|ops| Case { ops }), |c| run_case(ctx, c));
+    explore(ctx, rep, "histories", n, (prop::collection::vec(op_strategy(), 1..40), prop_oneof![3 => Just(vec![]), 2 => prop::collection::vec(prop_oneof![4 => Just(0u8), 2 => Just(1u8), 1 => Just(2u8)], 40)]).prop_map(|(ops, spell)| Case { ops, spell }), |c| run_case(ctx, c));
     let max_len = ctx.amount(3, 4) as usize;
     let alpha = small_ops();
     for len in 1..=max_len {
